@@ -35,4 +35,5 @@ func IteI64(c bool, a, b int64) int64   { intrinsic(); return 0 }
 func And(a, b bool) bool                { intrinsic(); return false }
 func Or(a, b bool) bool                 { intrinsic(); return false }
 func Implies(a, b bool) bool            { intrinsic(); return false }
+func DrbgStream(draws []uint64)             { intrinsic() }
 func RegisterHarness(name string, f func()) {}
